@@ -2,6 +2,7 @@ PROP = dict(
     gen=["octets"],
     proof_files=["Properties/C20.v", "Proofs/FlagsProofs.v", "Proofs/OctetTables.v", "Proofs/CivilProofs.v", "Proofs/SmppTimeProofs.v"],
     model_files=["Model/Flags.v", "Model/Civil.v", "Model/SmppTime.v", "Spec/SmppTimeSpec.v"],
+    extra_files=["Properties/Ext_Scalar.v"],   # outside C20 (text form of interface_version): a failure is a note, not a violation
     trusted=["Gen/Octets.v is the complete 256-row tabulation of the running octet codecs (dumper: harness/gen_octets.go)",
              "Model/SmppTime.v + Model/Civil.v are hand-written models of pdu/time.go and of the parts of Go's time, strconv and fmt "
              "packages it calls; tied by the generated cases (every op line the harness executes inside the property's quantifier is "
@@ -28,7 +29,8 @@ MANIFEST = dict(
               "octet tables regenerated from code) + vm_compute correspondence + extracted-model diff (thorough)",
     text="Theorems in coq/Properties/C20.v. Octets: decode/encode identity and SMPP bit positions for esm_class and registered_delivery, "
          "JSON round trip of interface_version, for all 256 octets, proved of the model AND of the complete table dumped from the "
-         "running code on this run. Time: C20_time_fmt_parse (every instant at 0.1 s and every offset in [-48,48] quarter hours whose local "
+         "running code on this run; the other inverse (encode then decode over every field value) and receiver independence (decoding into a variable "
+         "that already holds a value, any history of calls on one variable) of the model and, by complete tables, of the running code. Time: C20_time_fmt_parse (every instant at 0.1 s and every offset in [-48,48] quarter hours whose local "
          "civil time lies in 2000-01-01..2099-12-31: Time.String gives a valid 16-character string that denotes the value and Time.From "
          "returns it), C20_time_parse_fmt (every valid absolute string except nn=00 with '-' re-formats to itself and parses to what the "
          "standard says it denotes), C20_time_neg_zero_refuted / C20_time_neg_zero_class (D29: exactly that class comes back with '+'), "
